@@ -9,7 +9,7 @@ USES_FACTS = False
 DRIVER = "shootmodel_map"
 
 MANIFEST = dict(
-    text="Lean 4 theorems over parseCtors (parameter->field recovery composed with the C02 model of `shoot new`), makeCtorMatch with zero-value synthesis and the accessor pseudo-fields: every constructor argument is the zero literal or a justified value of a name-matched readable field, in parameter order (C15_ctor_args); no settable field is written twice, never after the constructor carried it (C15_set_once), and every settable field with an applicable name-matched partner that the constructor did not take is set exactly once (C15_set_exactly_once); every emitted statement applies C05's decision function to its two fields (C15_refines), accessor names match like the exported twin (C15_refines_partial); 4 finding regions with witness theorems (F_skipTagNew, F_ctorNoSub, F_ptrEmbedSetter, F_ctorArgNil: constructor arguments are read through nil embedded pointers unguarded), C15_hook_owned (a field a manual hook assigns is written by nobody else), 5 `_fixed` theorems on the witnesses of the repaired regions (set-only read, constructor priority, constructor tag, pointer-embed parameters, `any` zero value). Model tied to the code by rendering src/dest/both with unexported fields, generating real `shoot new -getset` output first, running `shoot map`, executing ToX/FromX and decoding every (unexported) leaf, plus per-leaf write counts from the generated text, the plain side partially nil (each embedded pointer / slice element in turn) and, per accessor-mode side, whether the generated constructor allocated every embedded pointer (ctoralloc keys: the assumption the constructor path of mapper.tmpl rests on).",
+    text="Lean 4 theorems over parseCtors (parameter->field recovery composed with the C02 model of `shoot new`), makeCtorMatch with zero-value synthesis and the accessor pseudo-fields: every constructor argument is the zero literal or a justified value of a name-matched readable field, in parameter order (C15_ctor_args); no settable field is written twice, never after the constructor carried it (C15_set_once), and every settable field with an applicable name-matched partner that the constructor did not take is set exactly once (C15_set_exactly_once); every emitted statement applies C05's decision function to its two fields (C15_refines), accessor names match like the exported twin (C15_refines_partial); 4 finding regions with witness theorems (F_skipTagNew, F_ctorNoSub, F_ptrEmbedSetter, F_ctorArgNil: constructor arguments are read through nil embedded pointers unguarded), C15_hook_owned (a field a manual hook assigns is written by nobody else), 5 `_fixed` theorems on the witnesses of the repaired regions (set-only read, constructor priority, constructor tag, pointer-embed parameters, `any` zero value). Model tied to the code by rendering src/dest/both with unexported fields, generating real `shoot new -getset` output first, running `shoot map`, executing ToX/FromX and decoding every (unexported) leaf, plus per-leaf write counts from the generated text, the plain side partially nil (each embedded pointer / slice element in turn) and, per accessor-mode side, whether the generated constructor allocated every embedded pointer (ctoralloc keys: the assumption the constructor path of mapper.tmpl rests on); FromX is also observed on an existing and on a reused receiver (returned pointer = receiver, receiver holds the result).",
     note="Lean kernel + standard axioms; accessor-mode types are flat or embed ONE level of flat accessor-mode types by value (promoted accessors, nested constructor literal); C15_refines / C15_set_exactly_once need `uniqueClaimable` (at most one claimable partner per field); which of several READING fields wins a written field (first in list order) and the leaf-level equality with the exported twin are asserted by the correspondence.",
     technique="Lean 4 proof (fold invariant of makeCtorMatch, write-set invariant) + differential execution through real accessors",
     design="5/C15")
